@@ -827,9 +827,13 @@ class Exec:
                 elif isinstance(s_, ast.AnnAssign) and isinstance(s_.target, ast.Name):
                     tgt, val = s_.target.id, s_.value
                 if tgt == name and isinstance(val, ast.Dict) and not val.keys:
-                    # a module-level registry (mutable dict): arbitrary contents at call time
+                    # a module-level registry (mutable dict): arbitrary contents at call time,
+                    # the same object every time it is looked at on this path
                     from .contracts import sym_for
-                    return sym_for(self, f"global.{name}", "dict")
+                    reg = self.ctx.__dict__.setdefault("registries", {})
+                    if name not in reg:
+                        reg[name] = sym_for(self, f"global.{name}", "dict")
+                    return reg[name]
         if name in self.imports:
             imp = self.imports[name]
             if imp[0] == "module":
